@@ -323,6 +323,16 @@ assert abs(a.weights.sum() - 4 * np.pi) < 1e-9, a.weights.sum()
 """
 
 
+STATE_SNIPPET = """import numpy as np
+from grid.angular import AngularGrid
+first = AngularGrid(degree={d}, method={m!r})
+p, w = first.points.copy(), first.weights.copy()
+first.points[...] *= 3.0; first.weights[...] *= 2.5      # the owner turns its grid into a radial shell
+g = AngularGrid(method={m!r}, **{kw!r})
+assert abs(g.weights.sum() - 4 * np.pi) < 1e-9 and np.array_equal(g.points, p) and np.array_equal(g.weights, w), (g.weights.sum(), 4 * np.pi)
+"""
+
+
 def _oracle_call_paths(ctx: Ctx, ang):
     """Every way of constructing the same quadrature gives the same grid: spelling of the method name (the API
     lower-cases it), degree= vs size=, cache on/off, first and repeated construction."""
@@ -349,6 +359,26 @@ def _oracle_call_paths(ctx: Ctx, ang):
                                      f"(sum of weights {float(g.weights.sum())!r}, 4 pi = {4 * np.pi!r})",
                                      witness={"method": spell, kw: val, "cache": cache},
                                      snippet=SPELL_SNIPPET.format(kw=kw, val=val, spell=spell, low=m, cache=cache))
+    # state between constructions: the owner of a grid scales it in place (a radial shell: points *= r, weights *= r^2 w);
+    # every grid constructed afterwards must still be the shipped quadrature
+    for m in methods:
+        d = ang.AngularGrid._get_degree_and_size(degree=ctx.rng.choice([3, 5, 9, 14]), size=None, method=m)[0]
+        if (m, d) in (("ahrens_beylkin", 39), ("ahrens_beylkin", 127)):
+            continue
+        first = ang.AngularGrid(degree=d, method=m)
+        ref_p, ref_w = first.points.copy(), first.weights.copy()
+        first.points[...] *= 3.0
+        first.weights[...] *= 2.5
+        for how, kw in (("degree, cache=True", dict(degree=d)), ("size, cache=True", dict(size=len(ref_w))), ("degree, cache=False", dict(degree=d, cache=False))):
+            g = ang.AngularGrid(method=m, **kw)
+            ctx.count(["state", m, d, how], nontrivial=True, tag="state:" + m)
+            if not (np.array_equal(g.points, ref_p) and np.array_equal(g.weights, ref_w)):
+                ctx.fail("oracle", f"angular.AngularGrid:{m}:after-inplace-edit",
+                         f"AngularGrid({how}, method={m!r}, degree {d}) constructed after an earlier grid of the same degree was scaled in place by its "
+                         f"owner is not the shipped quadrature: weights sum to {float(g.weights.sum())!r} (4 pi = {4 * np.pi!r}), "
+                         f"max |p| = {float(np.abs(np.linalg.norm(g.points, axis=1)).max())!r}",
+                         witness={"method": m, "degree": d, "construction": how},
+                         snippet=STATE_SNIPPET.format(m=m, d=d, kw=kw))
     for c in ("LEBEDEV_CACHE", "SPHERICAL_CACHE", "MAX_DET_CACHE", "AHRENS_BEYLKIN_CACHE"):
         getattr(ang, c).clear()
 
